@@ -187,6 +187,21 @@ func simGen(r *rand.Rand, tier string, n int) []*wire.Case {
 		mk("d-limbo-extra-action-both", t)
 	}
 	{
+		s := base() // a phase-1 tick that takes down units other than the acting one (a damage-over-time effect that hits the owner's whole side)
+		s.ehp = []float64{6000, 300}
+		s.progs[0] = "Mu3.8+Ap.1.1.10"
+		s.cycles = 4
+		mk("d-phase1-splash-kill", s)
+		t := base() // ... on the characters' side, with a revive about
+		t.start = 5
+		t.progs = append(t.progs, "Mu2.0")
+		t.progs[4] = "Mu1.8+Ap.1.1.10"
+		t.progs[0] = "C.90.1+Ap.1.1.10"
+		t.progs[1] = "C.90.1+Ap.1.1.10"
+		t.cycles = 4
+		mk("d-phase1-splash-kill-chars", t)
+	}
+	{
 		s := base() // both sides wiped out in the same death check (a killing blow paid for with the last HP): one decision, one termination
 		s.ckind, s.cspd, s.cenergy, s.cattack, s.cskill, s.cult = []int{0}, []float64{0}, []float64{0}, []int{0}, []int{1}, []int{3}
 		s.ehp, s.espd, s.eaction = []float64{500}, []float64{90}, []int{4}
@@ -455,9 +470,9 @@ func simGen(r *rand.Rand, tier string, n int) []*wire.Case {
 			case k == 14:
 				return fmt.Sprintf("N%s.%d", sel(), pick(r, 30, 60, 120, -50))
 			case k == 15 || k == 16:
-				return fmt.Sprintf("M%s.%d", sel(), r.Intn(8))
+				return fmt.Sprintf("M%s.%d", sel(), r.Intn(9))
 			case k == 17:
-				return fmt.Sprintf("R%s.%d", sel(), r.Intn(8))
+				return fmt.Sprintf("R%s.%d", sel(), r.Intn(9))
 			case k == 18:
 				return fmt.Sprintf("S.%d", pick(r, 1, 2, -1, -3))
 			case k == 19 && r.Intn(2) == 0:
@@ -466,7 +481,7 @@ func simGen(r *rand.Rand, tier string, n int) []*wire.Case {
 			if canAttack {
 				return fmt.Sprintf("Ap.%d.1.%d", pick(r, 1, 2), dmg())
 			}
-			return fmt.Sprintf("M%s.%d", sel(), r.Intn(8))
+			return fmt.Sprintf("M%s.%d", sel(), r.Intn(9))
 		}
 		for p := 0; p < nprogs; p++ {
 			var cs []string
